@@ -212,6 +212,19 @@ def ROUND(number, digits):
     return round(number, digits)
 
 
+def _floor_div(a, b):
+    # floor(a / b), exact for integers of any size (a float quotient keeps 53 bits only)
+    if isinstance(a, int) and isinstance(b, int):
+        return a // b
+    return math.floor(a / b)
+
+
+def _ceil_div(a, b):
+    if isinstance(a, int) and isinstance(b, int):
+        return -(-a // b)
+    return math.ceil(a / b)
+
+
 @dispatcher.register_for('ROUNDUP')
 def ROUNDUP(number, digits):
     number = utils.parse_number(number)
@@ -219,6 +232,9 @@ def ROUNDUP(number, digits):
     if utils.any_is_error((number, digits)):
         return error.VALUE
     sign = 1 if number > 0 else -1
+    if isinstance(number, int) and isinstance(digits, int):
+        unit = 10**max(-digits, 0)
+        return sign * _ceil_div(abs(number), unit) * unit
     return sign * (math.ceil(abs(number) * 10**digits)) / 10**digits
 
 
@@ -229,6 +245,9 @@ def ROUNDDOWN(number, digits):
     if utils.any_is_error((number, digits)):
         return error.VALUE
     sign = 1 if number > 0 else -1
+    if isinstance(number, int) and isinstance(digits, int):
+        unit = 10**max(-digits, 0)
+        return sign * _floor_div(abs(number), unit) * unit
     return sign * (math.floor(abs(number) * 10**digits)) / 10**digits
 
 
@@ -256,12 +275,12 @@ def CEILING(number, significance=1):
     positive_significance = significance > 0
     significance = abs(significance)
     if number >= 0:
-        return math.ceil(number / significance) * significance
+        return _ceil_div(number, significance) * significance
     else:
         if positive_significance:
-            return -1 * math.floor(abs(number) / significance) * significance
+            return -1 * _floor_div(abs(number), significance) * significance
         else:
-            return -1 * math.ceil(abs(number) / significance) * significance
+            return -1 * _ceil_div(abs(number), significance) * significance
 
 
 @dispatcher.register_for('FLOOR', 'FLOOR.MATH', 'FLOOR.PRECISE')
@@ -278,12 +297,12 @@ def FLOOR(number, significance=1):
 
     abs_significance = abs(significance)
     if number >= 0:
-        return math.floor(number / abs_significance) * abs_significance
+        return _floor_div(number, abs_significance) * abs_significance
     else:
-        func = math.floor
+        func = _floor_div
         if significance > 0:
-            func = math.ceil
-        return -1 * func(abs(number) / abs_significance) * abs_significance
+            func = _ceil_div
+        return -1 * func(abs(number), abs_significance) * abs_significance
 
 
 @dispatcher.register_for('POWER')
@@ -306,6 +325,9 @@ def QUOTIENT(numerator, denominator):
         return error.VALUE
     if denominator == 0:
         return error.DIV_ZERO
+    if isinstance(numerator, int) and isinstance(denominator, int):
+        quotient = abs(numerator) // abs(denominator)
+        return quotient if (numerator >= 0) == (denominator > 0) else -quotient
     return int(numerator / denominator)
 
 
